@@ -186,7 +186,9 @@ func (s *sched) observe(t *thr, ev string) {
 	if k != s.lastKey {
 		// legal: the running thread is inside a critical section (it holds a lock and has not yet
 		// announced that it is about to let go); user closures called in there are part of it
-		if !(t.holding > 0 && t.lastEv != "lock.release" && t.lastEv != "op.start" && ev != "lock.held") {
+		// ... of THIS stack (holding some other stack's lock does not license a write here)
+		owner, inside := s.inCS[s.last.Addr]
+		if !(t.holding > 0 && inside && owner == t.id && t.lastEv != "lock.release" && t.lastEv != "op.start" && ev != "lock.held") {
 			s.res.writes = append(s.res.writes, unlockedWrite{Op: opClass(t.curOp), From: t.lastEv, To: ev, What: diffClass(s.last, d)})
 		}
 		s.last, s.lastKey = d, k
